@@ -101,6 +101,7 @@ class Interp:
         self.ext_returns = []
         V.OBJREG.clear()
         self.creating_new = 0
+        self.loop_entry_heaps = []
         self.iter_old_heap = None
         self.trace_base = 0        # clauses of a callee evaluated at a call site see only the events it emits
         self.callsites = {}        # (callee, line) -> [reached, normal return feasible]
@@ -1448,6 +1449,18 @@ class Interp:
             nm = n.func.id
             if nm == "old":
                 return self.eval_old(n.args[0])
+            if nm == "old_loop":
+                # value when the innermost loop under contract was entered (before its first iteration)
+                if not self.loop_entry_heaps:
+                    raise SpecError("old_loop() outside a loop contract")
+                saved, saved_old = self.heap, self.old_heap
+                self.heap = self.loop_entry_heaps[-1]
+                self.shadowed.append(saved)
+                try:
+                    return self.eval(n.args[0])
+                finally:
+                    self.shadowed.pop()
+                    self.heap, self.old_heap = saved, saved_old
             if nm == "old_iter":
                 # value at the start of the loop iteration being checked (loop body clauses)
                 if self.iter_old_heap is None:
@@ -2428,6 +2441,15 @@ class Interp:
             self.loop_aliases.pop()
 
     def _inv_loop(self, s, k, spec, cond, pre_body=None, post_body=None, extra_havoc=(), extra_inv=None):
+        entry = self.heap.snapshot()
+        self.snapshots.append(entry)
+        self.loop_entry_heaps.append(entry)
+        try:
+            return self._inv_loop2(s, k, spec, cond, pre_body, post_body, extra_havoc, extra_inv)
+        finally:
+            self.loop_entry_heaps.pop()
+
+    def _inv_loop2(self, s, k, spec, cond, pre_body=None, post_body=None, extra_havoc=(), extra_inv=None):
         fc = self.frames[-1].fc
         fname = self.frames[0].fc.key
 
